@@ -1107,7 +1107,10 @@ pub fn seal_ambiguity(m: &RefState) -> BTreeSet<String> {
             if matches!(tx.kind, TxKind::LiqDeposit) && tx.outputs.len() >= 2 && (tx.outputs[0].value.0 == 0 || tx.outputs[1].value.0 == 0) {
                 s.insert("zero-valued-deposit".to_string());
             }
-            if matches!(tx.kind, TxKind::LiqWithdraw) && canon(&k).is_some() {
+            // (only a transaction that has the shape of a withdrawal request - one output, in the pool's liquidity token - can make the
+            //  block's withdrawals ambiguous; a withdrawal-like transaction with further outputs is simply not a request)
+            let is_request_shaped = tx.outputs.len() == 1 && canon(&k).map(|c| tx.outputs[0].denom == c.liq_token_denom()).unwrap_or(false);
+            if matches!(tx.kind, TxKind::LiqWithdraw) && canon(&k).is_some() && is_request_shaped {
                 let canon = canon(&k).unwrap();
                 let total: u128 = m
                     .block_txs
